@@ -1136,7 +1136,87 @@ fn feature_table(recvs: &[Recv]) -> Value {
             }
         }
     }
-    json!(m)
+    // pairwise coverage of the option space: field option x field option (same field) and
+    // field option x container option / trait
+    let mut pairs: std::collections::BTreeMap<(String, String), u64> = Default::default();
+    let field_labels = |f: &Field| -> Vec<String> {
+        let mut l = vec![];
+        if f.rename.is_some() {
+            l.push("rename".to_string());
+        }
+        match f.default {
+            Def::Trait => l.push("default".into()),
+            Def::Func => l.push("default_fn".into()),
+            Def::None => {}
+        }
+        if f.skip {
+            l.push("skip".into());
+        }
+        if f.multiple {
+            l.push("multiple".into());
+        }
+        if f.flatten {
+            l.push("flatten".into());
+        }
+        match f.with {
+            With::Path => l.push("with_path".into()),
+            With::Closure => l.push("with_closure".into()),
+            With::None => {}
+        }
+        match f.post {
+            Post::Map => l.push("map".into()),
+            Post::AndThen => l.push("and_then".into()),
+            Post::None => {}
+        }
+        l
+    };
+    for r in recvs {
+        let mut cl = vec![format!("trait:{:?}", r.tr)];
+        if let Some(rule) = r.rename_all {
+            cl.push(format!("rename_all:{}", rule.text()));
+        }
+        match r.cdefault {
+            Def::Trait => cl.push("c.default".into()),
+            Def::Func => cl.push("c.default_fn".into()),
+            Def::None => {}
+        }
+        match r.post {
+            Post::Map => cl.push("c.map".into()),
+            Post::AndThen => cl.push("c.and_then".into()),
+            Post::None => {}
+        }
+        if r.allow_unknown {
+            cl.push("c.allow_unknown_fields".into());
+        }
+        if r.from_ident {
+            cl.push("c.from_ident".into());
+        }
+        let fields: Vec<&Field> = match &r.shape {
+            Shape::Struct(fs) => fs.iter().collect(),
+            Shape::Enum(vs) => vs
+                .iter()
+                .flat_map(|v| match &v.body {
+                    VBody::Struct(fs) => fs.iter().collect::<Vec<_>>(),
+                    _ => vec![],
+                })
+                .collect(),
+            _ => vec![],
+        };
+        for f in fields {
+            let fl = field_labels(f);
+            for (i, a) in fl.iter().enumerate() {
+                for b in fl.iter().skip(i + 1) {
+                    *pairs.entry((a.clone(), b.clone())).or_insert(0) += 1;
+                }
+                for c in &cl {
+                    *pairs.entry((a.clone(), c.clone())).or_insert(0) += 1;
+                }
+            }
+        }
+    }
+    let min = pairs.values().min().copied().unwrap_or(0);
+    let rare: Vec<String> = pairs.iter().filter(|(_, n)| **n < 3).map(|((a, b), n)| format!("{a}+{b}={n}")).take(40).collect();
+    json!({"features": m, "option_pairs_hit": pairs.len(), "min_pair_count": min, "pairs_hit_fewer_than_3_times": rare})
 }
 
 fn main() {
